@@ -12,6 +12,10 @@ CHECKS = {
          "Trusts the reference varint codec (self-checked at setup); int64/float64 are covered on boundary sets only.", "DESIGN.md §4 C17"),
 }
 CHECKS.update({
+ # NEW-ENTRIES-HERE
+ "C13": (True, "exploration", "bounded-exhaustive enumeration of (caller schema, covering Go type, value) triples; reference decoder as oracle for Write, reference mapping for Read",
+         "Every schema of nesting depth <=2 (3 thorough) over the supported leaves (incl. logical date/timestamps and null in either union position) is paired with every compatible Go field type (integer and float widths, pointers, null.* wrappers, time.Time) and every value of a bounded alphabet; when Schema.Codec builds, the bytes Write produces must decode under the reference decoder, with nothing left over, to the datum the value denotes, and Read of those bytes must return the value. 17k distinct triples in the quick tier.",
+         "Only null+one-type unions are written; depth bound; times under long schemas restricted to the int64-nanosecond range.", "DESIGN.md §4 C13"),
  "C01": (True, "exploration", "bounded-exhaustive enumeration of (struct type, value sequence, codec, block size, flush pattern, reader chunking) through the real encoder and reader",
          "Small-scope exhaustive exploration: 900+ probe struct types (all type expressions of depth <=2 over 16 leaves and 4 wrappers; the depth<=1 ones as generated static types through the real generic Encoder[T]) x every value sequence of length <=2 over the full value alphabet and every length-3 sequence over representatives x 3 codecs x 4 block sizes x every flush subset, read back through ReadFile into T and *T under three reader behaviours; canary fields around the probe field expose out-of-field loads/stores. Every small shape is visited, which is what finds the breaking type shapes the suite does not sample.",
          "Depth/size bounds (small-scope hypothesis); dynamic types use an API-level emulation of the 20-line Encoder.", "DESIGN.md §4 C01"),
